@@ -457,10 +457,11 @@ def encodeDop : (fuel : Nat) → Dop → PVal → EncM Unit
         modifyS fun s' => { s' with origin := s.cursorByte }
         -- the switch key is placed like a VALUE parameter at (BYTE-POSITION, BIT-POSITION) relative to the multiplexer
         encodeParam fuel (.mk "" (some swBytePos) swBitPos (.value swDop none)) (some (.atom (.int key)))
-        modifyS fun s' => { s' with cursorByte := s.cursorByte + bytePos }
+        -- the content is placed like a VALUE parameter at the multiplexer's BYTE-POSITION (relative to the multiplexer)
         match st with
-        | some d => encodeDop fuel d content
-        | none =>
+        | some d => encodeParam fuel (.mk "" (some bytePos) none (.value d none)) (some content)
+        | none => do
+          modifyS fun s' => { s' with cursorByte := s.cursorByte + bytePos }
           (match content with
            | .none | .dict [] => emplaceBytes [] none
            | _ => raise .encode)
